@@ -1070,8 +1070,9 @@ class CHECK(Check):
                    "pickling a set-up adversarial estimator is not claimed by the property (result not judged, state is)",
                    "helper objects: only the torch backend is executed (tensorflow is not installed; TensorflowEngine.evaluate is "
                    "covered by the lifted lists and theorems only); the torch train/eval mode flag is not compared as state (see trusted)",
-                   "F5g (known finding): CorrelationRemover.transform rewrites n_features_in_ / feature_names_in_ through "
-                   "validate_data(reset=True); exactly these two names are tolerated for class CR")
+                   "F5g (repaired in /repo): CorrelationRemover.transform called validate_data(self, X) with reset=True and so rewrote "
+                   "n_features_in_ / feature_names_in_; the other-width (nd-wide, df-wide) and moved-column (df-moved) configurations "
+                   "keep calling transform on such data, so a revert is reported (C19.predict_pure what=helper-state)")
 
     # ---------------------------------------------------------------- generation
     def _cfgs(self, ad, tier):
@@ -1478,9 +1479,7 @@ class CHECK(Check):
         elif (cls == "CR" and rel == "C19.fit_total" and info.get("exc") == "ValueError"
               and info.get("width_change")):
             hit = "F5e"
-        # F5g: CorrelationRemover.transform -> validate_data(self, X) with reset=True rewrites exactly the two sklearn
-        #      bookkeeping attributes n_features_in_ / feature_names_in_ (any other attribute is still a violation)
-        elif (cls == "CR" and rel == "C19.predict_pure" and info.get("what") == "helper-state" and info.get("names")
-              and set(info["names"]) <= {"est.n_features_in_", "est.feature_names_in_"}):
-            hit = "F5g"
+        # (F5g, CorrelationRemover.transform -> validate_data(self, X) with reset=True rewriting n_features_in_ /
+        #  feature_names_in_, was repaired in /repo (reset=False): no predicate any more — a revert is reported as a violation
+        #  of C19.predict_pure what=helper-state, corpus/C19/f5g-...json)
         return by_id.get(hit) if hit else None
